@@ -925,9 +925,55 @@ def serveH : Handler := fun inp impl => do
       | _ => "several-requests"
   return ({ model := model, agree := model == implV, spec := spec, nontrivial := sep && vs.any (·.logged), tag := tag } : Verdict).toJson
 
+/-! ### uuid.NewUUID as the request path calls it -/
+
+def newuuidH : Handler := fun inp impl => do
+  let n ← inp.getObjValAs? Nat "n"
+  let workers ← inp.getObjValAs? Nat "workers"
+  if n > 2000 || workers > 32 then throw "n/workers out of range"
+  let total := n * workers
+  if isPanicJ impl then
+    return ({ model := Json.null, agree := false, spec := false, nontrivial := true, tag := "panic" } : Verdict).toJson
+  let ids := ((impl.getObjValAs? (Array String) "ids").toOption.getD #[]).toList
+  let dec (s : String) : Option (Nat × List UInt8) :=
+    if !S.uuidShaped s then none else
+    match hexDecode (s.toList.filter (· != '-')) with
+    | some bytes =>
+      if bytes.length != 16 then none
+      else some ((bytes.take 8).reverse.foldl (fun a x => a * 256 + x.toNat) 0, bytes.drop 8)
+    | none => none
+  let ds := ids.map dec
+  let shaped := ds.all (·.isSome)
+  let ok := ds.filterMap id
+  let ctrs := ok.map (·.1)
+  let rests := (ok.map (·.2)).eraseDups
+  let m64 : Nat := 18446744073709551616
+  -- the first counter of the run: the one whose predecessor was not handed out in this case
+  let base := (ctrs.filter fun c => !ctrs.contains ((c + m64 - 1) % m64)).head?
+  let predicted : Option (List String) := match base, rests with
+    | some c, [rest] =>
+      let seed := List.replicate 8 (0 : UInt8) ++ rest ++ List.replicate 8 (0 : UInt8)
+      (List.range total).mapM fun k => match Fabio.Model.C20Serve.newUUID seed (c + k) with
+        | .ok s => some (String.ofList s)
+        | .panic _ => none
+    | _, _ => if total == 0 then some [] else none
+  let sortS (l : List String) : List String := l.mergeSort (fun a b => decide (a ≤ b))
+  let m : Json := match predicted with
+    | some p => Json.mkObj [("ids", Json.arr ((sortS p).map Json.str).toArray)]
+    | none => Json.mkObj [("ids", Json.null)]
+  let ci := Json.mkObj [("ids", Json.arr (ids.map Json.str).toArray)]
+  let distinct := ids.eraseDups.length == ids.length
+  let consecutive := (ctrs.filter fun c => !ctrs.contains ((c + m64 - 1) % m64)).length ≤ 1
+  let spec := ids.length == total && shaped && distinct && rests.length ≤ 1 && consecutive
+  let tag := if ids.length != total then "wrong-number-of-ids" else if !shaped then "bad-shape"
+    else if !distinct then "id-repeated" else if rests.length > 1 then "constant-part-changed"
+    else if !consecutive then "counter-not-consecutive"
+    else if workers ≥ 2 then "concurrent" else "sequential"
+  return ({ model := m, agree := m == ci, spec := spec, nontrivial := total ≥ 2, tag := tag } : Verdict).toJson
+
 def streams : List (String × Handler) := [
   ("c20.atoi", atoiH), ("c20.i32toa", i32toaH), ("c20.i32block", i32blockH), ("c20.i32sweep", i32sweepH), ("c20.uint16", uint16H),
   ("c20.uuid", uuidH), ("c20.hostport", hostportH), ("c20.parse", parseH), ("c20.render", renderH), ("c20.concurrent", concurrentH),
   ("c20.capture", captureH), ("c20.reentrant", reentrantH),
-  ("c20.url", urlH), ("c20.serve", serveH)]
+  ("c20.url", urlH), ("c20.serve", serveH), ("c20.newuuid", newuuidH)]
 end Fabio.Driver.C20
